@@ -1294,9 +1294,7 @@ func builtins() []*Builtin {
 			switch x := a[0].(type) {
 			case map[string]interface{}:
 				for k, v := range x {
-					if v != nil {
-						out[k] = v
-					}
+					out[k] = v // (a null member is a member)
 				}
 			case []interface{}:
 				for _, e := range x {
@@ -1305,9 +1303,7 @@ func builtins() []*Builtin {
 						return Undef, otherErr("merge")
 					}
 					for k, v := range m {
-						if v != nil {
-							out[k] = v
-						}
+						out[k] = v
 					}
 				}
 			default:
